@@ -712,6 +712,20 @@ pub fn special_scenario(rng: &mut Rng) -> Option<(Board, Vec<ChessMove>)> {
                     }
                 }
             }
+            // sometimes o's king and one of c's rooks / queens stand on the PUSHED PAWN'S FILE on either side of it: the
+            // pushed pawn shields the king, and after the en-passant capture the capturing pawn (landing on that file)
+            // still does - the capture is legal, and only an occupancy that forgets the landing square says otherwise
+            if rng.chance(1, 5) {
+                let far: Vec<usize> = (4..8).map(|r| sqi(rk(r), f)).filter(|x| d.sq[*x].is_none()).collect();
+                let home = sqi(rk(0), f);
+                if !far.is_empty() && d.sq[home].is_none() {
+                    let fs = far[rng.below(far.len())];
+                    let (ks, ss) = if rng.chance(2, 3) { (fs, home) } else { (home, fs) };
+                    for i in 0..64 { if d.sq[i] == Some((Piece::King, o)) { d.sq[i] = None; } }
+                    d.sq[ks] = Some((Piece::King, o));
+                    d.sq[ss] = Some((if rng.chance(1, 2) { Piece::Rook } else { Piece::Queen }, c));
+                }
+            }
             // sometimes the double push itself UNCOVERS a check: o's king and one of c's sliders on a line through the
             // pawn's start square (its home rank, or a diagonal) with only that pawn between them - the en-passant
             // capture is then offered to a side that is in check by a slider on another line
